@@ -8,8 +8,13 @@
      `N <depth> <ns|-> <local> <text|-> <k> <attr-local> <attr-value> …`  its elements in document order
      `RUN`                                                                deserialise, serialise again, resolve
      `RESET`                                                              forget the program
-   stdout, per `RUN`: `R <id> ok` followed by `N …` lines of the result and `END`, or `R <id> <error class>` and `END`. -/
+   stdout, per `RUN`: `R <id> ok fix=<same|differs|error> declared=<0|1> core=<0|1> okval=<0|1>` followed by `N …` lines of
+   the result and `END`, or `R <id> <error class>` and `END`. `declared` / `core` / `okval` are the decidable hypotheses
+   of the theorems in Props/C03Ya, C04Ya evaluated on this program and on the deserialised value. -/
 import ZeepVerif.Ya.Model
+import ZeepVerif.Ya.OfDoc
+import ZeepVerif.Lemmas.YaWf
+import ZeepVerif.Lemmas.YaRt
 import ZeepVerif.Driver.Util
 
 namespace ZeepVerif.Driver.YaDrv
@@ -105,7 +110,10 @@ def runOne (st : St) : List String :=
                 | none => "error")
               | none => "error")
             | none => "error"
-          ("R\t" ++ st.tid ++ "\tok\tfix=" ++ fix) :: emit 0 rx ++ ["END"]
+          let b (x : Bool) : String := if x then "1" else "0"
+          ("R\t" ++ st.tid ++ "\tok\tfix=" ++ fix ++ "\tdeclared=" ++ b (ZeepVerif.Lemmas.YaWf.declared P) ++
+            "\tcore=" ++ b (ZeepVerif.Lemmas.YaRt.core P) ++ "\tokval=" ++ b (ZeepVerif.Lemmas.YaRt.okVal P (.struct st.root) v)) ::
+            emit 0 rx ++ ["END"]
   | _ => ["R\t" ++ st.tid ++ "\tbad-tree", "END"]
 
 def step (st : St) (line : String) : St × List String :=
@@ -132,5 +140,37 @@ partial def loop (h : IO.FS.Stream) (st : St) : IO Unit := do
   loop h st'
 
 def main : IO Unit := do loop (← IO.getStdin) {}
+
+end ZeepVerif.Driver.YaDrv
+
+namespace ZeepVerif.Driver.YaDrv
+open ZeepVerif ZeepVerif.Model ZeepVerif.Ya
+
+def leafStr : Leaf → String
+  | .prim .string => "P:string"
+  | .prim .bool => "P:bool"
+  | .prim .float => "P:float"
+  | .prim (.int ty) => "P:int:" ++ ty
+  | .struct n => "S:" ++ hex n
+
+def hx0 (s : String) : String := if s.isEmpty then "-" else hex s
+
+/-- `zvdrv progof <dump> <start>`: the derive input `Ya.progOf` of the model's document, in the S/F line format
+    (namespaces sorted by prefix, as a BTreeMap prints them) -/
+def progofMain (dump start : String) : IO UInt32 := do
+  let content ← IO.FS.readFile dump
+  let (files, _) := Dump.parse content
+  match readXml files start with
+  | .error e => IO.println ("read-err " ++ e.name); return 0
+  | .ok d =>
+    for sd in progOf d do
+      let nss := sd.nss.toArray.qsort (fun a b => a.1 < b.1) |>.toList
+      IO.println ("S\t" ++ hex sd.name ++ "\t" ++ (match sd.pfx with | some p => hx0 p | none => "-") ++ "\t" ++ hx0 sd.rename ++ "\t" ++
+        (if nss.isEmpty then "-" else ";".intercalate (nss.map fun (p, u) => hx0 p ++ "=" ++ hx0 u)))
+      for f in sd.fields do
+        let kind := match f.kind with | .elem => "elem" | .attr => "attr" | .text => "text" | .flatten => "flatten"
+        let wrap := match f.wrap with | .one => "one" | .opt => "opt" | .vec => "vec"
+        IO.println ("F\t" ++ kind ++ "\t" ++ (match f.pfx with | some p => hx0 p | none => "-") ++ "\t" ++ hx0 f.rename ++ "\t" ++ wrap ++ "\t" ++ leafStr f.leaf)
+    return 0
 
 end ZeepVerif.Driver.YaDrv
